@@ -31,6 +31,7 @@ type Clause struct {
 	Loop int
 	Name string // optional label: `ensures [label] expr`
 	When *Clause // modifies ... when <cond over the pre-state>
+	Ante *Clause // ensures `A ==> B`: the antecedent A as a clause of its own (reachability audit)
 }
 
 type LoopBind struct {
@@ -733,6 +734,19 @@ func genOverlay(pc *PkgContracts, files []*ast.File, specDir string) (string, er
 		}
 		for i, c := range fc.Ensures {
 			emit(c, fmt.Sprintf("govc__%s__ens%d", fc.Mangled, i), nil, true)
+			// the antecedent of a top-level implication, as a function of its own (reachability audit, thorough tier)
+			full := strings.TrimSpace(applyLets(fc, c.Text))
+			if forallRe.FindStringSubmatch(full) == nil && findTop(full, "<==>") < 0 {
+				if k := findTop(full, "==>"); k >= 0 {
+					ante := &Clause{Kind: "ante", Text: full[:k], Line: c.Line}
+					name := fmt.Sprintf("govc__%s__ens%d__ante", fc.Mangled, i)
+					ante.Fn = name
+					e := rewriteExpr(full[:k])
+					noteImports(e)
+					fmt.Fprintf(&body, "//line %s:%d\nfunc %s(%s) bool { return %s }\n", fc.File, c.Line, name, sigIn(resDecl...), e)
+					c.Ante = ante
+				}
+			}
 		}
 		for i, c := range fc.Canaries {
 			emit(c, fmt.Sprintf("govc__%s__can%d", fc.Mangled, i), nil, true)
